@@ -240,12 +240,12 @@ func (in *Interp) spawnGoroutine(fr *frame, instr *ssa.Go, fn value, args []valu
 	}
 	parent := in.cur
 	g := &goroutine{id: len(s.gs), resume: make(chan struct{}, 1), what: fmt.Sprint(fn)}
-	in.tick(parent)
 	g.vc = parent.vc.clone()
 	for len(g.vc) <= g.id {
 		g.vc = append(g.vc, 0)
 	}
 	g.vc[g.id] = 1
+	in.tick(parent) // accesses after the go statement are not ordered before the child
 	s.gs = append(s.gs, g)
 	s.wg.Add(1)
 	go func() {
@@ -327,7 +327,6 @@ func (in *Interp) chanSend(fr *frame, ch *chanV, v value) {
 		in.targetPanicStr("send on closed channel")
 	}
 	me := in.cur
-	in.tick(me)
 	if len(ch.recvq) > 0 {
 		w := ch.recvq[0]
 		ch.recvq = ch.recvq[1:]
@@ -336,11 +335,14 @@ func (in *Interp) chanSend(fr *frame, ch *chanV, v value) {
 		// rendezvous: both sides learn each other's past
 		w.g.vc.join(me.vc)
 		me.vc.join(w.g.vc)
+		in.tick(me)
+		in.tick(w.g)
 		return
 	}
 	if len(ch.buf) < ch.cap {
 		ch.buf = append(ch.buf, copyVal(v))
 		ch.bufVC = append(ch.bufVC, me.vc.clone())
+		in.tick(me)
 		return
 	}
 	w := &waiter{g: me, val: copyVal(v)}
@@ -349,6 +351,7 @@ func (in *Interp) chanSend(fr *frame, ch *chanV, v value) {
 	if !w.done {
 		in.targetPanicStr("send on closed channel")
 	}
+	in.tick(me)
 }
 
 func (in *Interp) chanRecv(fr *frame, ch *chanV, commaOk bool, elemT types.Type) value {
@@ -357,7 +360,6 @@ func (in *Interp) chanRecv(fr *frame, ch *chanV, commaOk bool, elemT types.Type)
 		in.block("recv-nil", func() bool { return false })
 	}
 	me := in.cur
-	in.tick(me)
 	var v value
 	ok := true
 	switch {
@@ -380,6 +382,7 @@ func (in *Interp) chanRecv(fr *frame, ch *chanV, commaOk bool, elemT types.Type)
 		w.done = true
 		me.vc.join(w.g.vc)
 		w.g.vc.join(me.vc)
+		in.tick(me)
 	case ch.closed:
 		me.vc.join(ch.vc)
 		v = in.zero(elemT)
@@ -416,9 +419,9 @@ func (in *Interp) chanClose(fr *frame, ch *chanV) {
 	if ch.closed {
 		in.targetPanicStr("close of closed channel")
 	}
-	in.tick(in.cur)
 	ch.closed = true
 	ch.vc = in.cur.vc.clone()
+	in.tick(in.cur)
 }
 
 // ---- sync intrinsics ----
@@ -434,7 +437,6 @@ func (in *Interp) mutexLock(p *value) {
 	in.block("lock", func() bool { return !m.locked })
 	m.locked = true
 	in.cur.vc.join(m.vc)
-	in.tick(in.cur)
 }
 
 func (in *Interp) mutexUnlock(p *value) {
@@ -443,9 +445,9 @@ func (in *Interp) mutexUnlock(p *value) {
 	if m == nil || !m.locked {
 		in.targetPanicStr("fatal error: sync: unlock of unlocked mutex")
 	}
-	in.tick(in.cur)
 	m.vc = in.cur.vc.clone()
 	m.locked = false
+	in.tick(in.cur)
 }
 
 func (in *Interp) wgOf(p *value) *wgState {
@@ -462,13 +464,13 @@ func (in *Interp) wgAdd(p *value, d int64) {
 	if d < 0 {
 		in.yield("wg-done")
 	}
-	in.tick(in.cur)
 	w.n += d
 	if w.n < 0 {
 		in.targetPanicStr("sync: negative WaitGroup counter")
 	}
 	if d < 0 {
 		w.vc.join(in.cur.vc)
+		in.tick(in.cur)
 	}
 }
 
@@ -477,7 +479,6 @@ func (in *Interp) wgWait(p *value) {
 	w := in.wgOf(p)
 	in.block("wg-wait", func() bool { return w.n == 0 })
 	in.cur.vc.join(w.vc)
-	in.tick(in.cur)
 }
 
 // ---- happens-before race detection over heap cells ----
